@@ -8,10 +8,15 @@
    return exactly bits [c*chunk, c*chunk+c) of the value, for every 1 <= c <= 64, every
    chunk and every value below 2^256 - so the window values feeding the carry loop are
    those of the arithmetic recoding.
-   PARTIAL: the packed re-encoding of the signed digits into the output limbs (OR of
-   fields, msb flag for negative digits) and its read-back, the choice of c and of the
-   number of splits are tied by correspondence only (packed limbs and per-c results
-   compared through hooks); termination of the channel protocol is C12/C20. *)
+   C09_partition_digits: for every window width 2 <= c <= 64 and every canonical scalar the
+   packed limbs written by the per-scalar loop of partitionScalars (OR of shifted fields,
+   64-bit truncation, multi-word writes, msb flag for negative digits), read back chunk by
+   chunk exactly as the chunk processor reads them, ARE the signed digits of the arithmetic
+   recoding, and no carry is left.
+   PARTIAL: the final assembly "msmInner = sum s_i P_i" from these parts, the smaller bucket
+   array of the last window, the choice of c / number of splits and the Montgomery flag are
+   tied by correspondence (per-c results and packed limbs compared through hooks);
+   termination of the channel protocol is C12/C20. *)
 From Coq Require Import ZArith List.
 From GoIpa Require Import Model.Alg Model.Pippenger Proofs.AlgLaws Proofs.IPAProofs
   Proofs.PippengerProofs Proofs.MsmProofs Proofs.PartitionProofs.
@@ -44,6 +49,17 @@ Theorem C09_signed_digit_encoding : forall c d, 2 <= c -> - 2 ^ (c - 1) <= d <= 
   signed_of_bits c (encode_digit c d) = d /\ 0 <= encode_digit c d < 2 ^ c.
 Proof. exact signed_digit_roundtrip. Qed.
 Print Assumptions C09_signed_digit_encoding.
+
+(* limb level, whole per-scalar loop *)
+Theorem C09_partition_digits : forall c s, 2 <= c <= 64 -> 0 <= s < 2 ^ 253 ->
+  let nb := Z.to_nat (nb_chunks c) in
+  let packed := fst (part_loop nb c s 0 0 0) in
+  snd (part_loop nb c s 0 0 0) = 0
+  /\ 0 <= packed < 2 ^ 256
+  /\ forall j, (j < nb)%nat ->
+       signed_of_bits c (chunk_bits c packed (Z.of_nat j)) = List.nth j (fst (recode nb c s 0)) 0.
+Proof. exact partition_scalar_digits. Qed.
+Print Assumptions C09_partition_digits.
 
 Section C09.
   Context {F G : Type} (fo : FOps F) (go : GOps F G) (FL : FieldLaws fo) (GL : GroupLaws fo go).
